@@ -204,9 +204,6 @@ def load_module_from_file_object(
     See :func:load_module for a list of return values.
     """
 
-    if code_objects is None:
-        code_objects = {}
-
     timestamp = 0
     try:
         magic = fp.read(4)
@@ -336,7 +333,9 @@ def load_module_from_file_object(
                 elif fast_load:
                     co = xdis.marsh.load(fp, magicint2version[magic_int])
                 else:
-                    co = xdis.unmarshal.load_code(fp, magic_int, code_objects)
+                    co = xdis.unmarshal.load_code(
+                        fp, magic_int, code_objects=code_objects
+                    )
                 pass
             else:
                 co = None
